@@ -41,7 +41,68 @@ func (s *sut) newAttempt(rp *replica, base string) *attempt {
 	return &attempt{b: b, cookie: b.get(cookie.Login).Value, state: req.State, code: code}
 }
 
+// c02Race: the authorization code of attempt A is presented by browser B - with B's OWN login cookie and state, so B's browser-side checks pass - WHILE A's
+// redemption of that code is still in flight at the provider. B may only ever obtain a session through a redemption carrying the verifier bound in B's cookie
+// (which the provider refuses: the code belongs to A's challenge); it must not ride on A's redemption. Executed on the schedule executor: the provider call is a
+// scheduling point.
+func c02Race(c *ctx) {
+	for _, order := range []string{"A-parked-then-B", "B-parked-then-A"} {
+		s := newSut(sutOpts{sidRequired: true})
+		rp := s.replica("A")
+		base := "http://wonderwall"
+		a, b := s.newAttempt(rp, base), s.newAttempt(rp, base)
+		sc := newScheduler(s)
+		sc.blockAfter = 300 * time.Millisecond
+		nav := http.Header{"Sec-Fetch-Mode": {"navigate"}, "Sec-Fetch-Dest": {"document"}}
+		sc.spawn("A", rp, a.b, "GET", base+"/oauth2/callback?"+url.Values{"code": {a.code}, "state": {a.state}}.Encode(), nav)
+		sc.spawn("B", rp, b.b, "GET", base+"/oauth2/callback?"+url.Values{"code": {a.code}, "state": {b.state}}.Encode(), nav)
+		nc := s.idp.callCount()
+		first, second := "A", "B"
+		if order == "B-parked-then-A" {
+			first, second = "B", "A"
+		}
+		sc.step(first, stepProceed)  // START: runs into its token request, which is parked
+		sc.step(second, stepProceed) // START: parks at its own token request - or waits inside the replica for the other one's
+		sc.step(first, stepProceed)  // the provider answers the first
+		sc.drain(40)
+		sc.stop()
+		calls := s.idp.callsSince(nc)
+		verA, verB := loginCookieVerifier(s, a.cookie), loginCookieVerifier(s, b.cookie)
+		nA, nB, okB := 0, 0, 0
+		for _, cl := range calls {
+			if cl.Verifier == verA {
+				nA++
+			}
+			if cl.Verifier == verB {
+				nB++
+				if cl.Outcome == "ok" {
+					okB++
+				}
+			}
+		}
+		c.count("race:" + order)
+		c.emit("cbrace", "order", order, "astatus", sc.status("A"), "bstatus", sc.status("B"), "asession", a.b.get(cookie.Session) != nil, "bsession", b.b.get(cookie.Session) != nil,
+			"callsa", nA, "callsb", nB, "okb", okB, "trace", sc.fullTrace())
+		s.close()
+	}
+}
+
+func loginCookieVerifier(s *sut, v string) string {
+	raw, err := base64.RawURLEncoding.DecodeString(v)
+	if err != nil {
+		return ""
+	}
+	pt, err := s.crypter.Decrypt(raw)
+	if err != nil {
+		return ""
+	}
+	var lc openid.LoginCookie
+	json.Unmarshal(pt, &lc)
+	return lc.CodeVerifier
+}
+
 func runC02(c *ctx) {
+	c02Race(c)
 	r := c.rng
 	otherKey := crypto.NewCrypter([]byte("0123456789abcdef0123456789abcdef"))
 	kinds := []string{"own", "absent", "notbase64", "truncated", "bitflip", "otherkey", "otherattempt", "logoutcipher", "sessioncipher", "plaintext", "empty"}
